@@ -51,3 +51,8 @@ def _remap_exception(f, cls, desc):
 
 def check_c18(tier="quick", seed=0):
     return _run("C18", C18_ROOTS, {"global-write"}, "writes process-wide state (module-level or class-level table, mutable default, memo)", allow=(_remap_exception,), tier=tier)
+
+
+def check_frames(prop="C04", roots=(), tier="quick", seed=0):
+    """the same frame condition for the entry points of another property (its functions keep no state between calls)"""
+    return _run(prop, list(roots), {"global-write"}, "writes process-wide state (module-level or class-level table, mutable default, memo)", allow=(_remap_exception,), tier=tier)
